@@ -131,6 +131,10 @@ func checkC18(c *core.Ctx) {
 		if !mk("explicit list of all rules", standardRules, false) || !mk("default call", standardRules, true) {
 			return
 		}
+		// the empty (non-nil) rule list: the union over no rule is no error
+		if !mk("explicit empty rule list", []validator.Rule{}, false) {
+			return
+		}
 		for k := 0; k < nsub; k++ {
 			perm := rng.Perm(len(standardRules))
 			n := 2 + rng.Intn(6)
